@@ -473,6 +473,7 @@ class Loops:
         else:
             rep.ranked = True
             rep.measure = f"iterator over a finite sequence of {for_ctx['N']} elements"
+        self.last_report = rep
         if not I.quiet:
             I.loop_reports.append(rep)
         # a loop whose every iteration writes [x+S, x+S+w) and advances x by w writes [x0+S, x_exit+S)
@@ -1072,6 +1073,10 @@ class Loops:
         if c["k"] != "Binary" or c["op"] not in ("Lt", "Gt"):
             return None
         lhs, rhs = (_strip(c["lhs"]), c["rhs"]) if c["op"] == "Lt" else (_strip(c["rhs"]), c["lhs"])
+        desc = False
+        if lhs["k"] != "Var" and c["op"] == "Gt" and _strip(c["lhs"])["k"] == "Var":
+            # `while v > E { body; v -= 1 }`: the same traversal counted downwards
+            lhs, rhs, desc = _strip(c["lhs"]), c["rhs"], True
         if lhs["k"] != "Var":
             return None
         var = lhs["var"]
@@ -1103,6 +1108,16 @@ class Loops:
             return None
 
         def is_incr(x):
+            if desc:
+                if x["k"] == "AssignOp" and x["op"] == "SubAssign":
+                    l, r = _strip(x["lhs"]), _strip(x["rhs"])
+                    return l["k"] == "Var" and l["var"] == var and r["k"] == "Lit" and r.get("kind") == "int" and int(r["v"]) == 1 and not r.get("neg")
+                if x["k"] == "Assign":
+                    l, r = _strip(x["lhs"]), _strip(x["rhs"])
+                    if l["k"] == "Var" and l["var"] == var and r["k"] == "Binary" and r["op"] == "Sub":
+                        a, b2 = _strip(r["lhs"]), _strip(r["rhs"])
+                        return a["k"] == "Var" and a["var"] == var and b2["k"] == "Lit" and b2.get("kind") == "int" and int(b2["v"]) == 1
+                return False
             if x["k"] == "AssignOp" and x["op"] == "AddAssign":
                 l, r = _strip(x["lhs"]), _strip(x["rhs"])
                 return l["k"] == "Var" and l["var"] == var and r["k"] == "Lit" and r.get("kind") == "int" and int(r["v"]) == 1 and not r.get("neg")
@@ -1156,7 +1171,7 @@ class Loops:
         scan(body)
         if bad:
             return None
-        return var, rhs, body
+        return (var, rhs, body, True) if desc else (var, rhs, body)
 
     def counter_while_loop(self, e, st):
         """a counting `while` loop as a traversal of the range [i0, E): outcomes, or None when the shape does not apply"""
@@ -1164,7 +1179,8 @@ class Loops:
         m = self.counter_while(e)
         if m is None:
             return None
-        var, bound, body = m
+        desc = len(m) == 4
+        var, bound, body = m[:3]
         key = (st.frame, var)
         cur = st.env.get(key)
         if not isinstance(cur, IntV):
@@ -1182,6 +1198,18 @@ class Loops:
                 outs.append((s, kind, bv))
                 continue
             i0, E, ty = cur.l, bv.l, cur.ty
+            if desc:
+                # v takes the values i0, i0 - 1, ..., E + 1 and is E afterwards
+                for s1 in I.assume(s, flit(le(i0, E))):
+                    outs.append((s1, "val", UNIT))
+                for s1 in I.assume(s, flit(gt(i0, E))):
+                    itv = IterV(("rev", ("range", E + 1, i0 + 1, ty), lin(0)))
+
+                    def at_exit_d(sx, key=key, E=E, ty=ty):
+                        sx.env[key] = IntV(E, ty)
+
+                    outs.extend(self._for_core(e, s1, itv, None, None, body, e.get("label"), bind_var=key, at_exit=at_exit_d))
+                continue
             for s1 in I.assume(s, flit(le(E, i0))):
                 outs.append((s1, "val", UNIT))            # the guard fails at once: nothing happens
             for s1 in I.assume(s, flit(gt(E, i0))):
@@ -1219,7 +1247,7 @@ class Loops:
             outs.extend(self._for_core(e, s, itv, r, elem_pat, body, e.get("label")))
         return outs
 
-    def _for_core(self, e, s, itv, ref, elem_pat, body, label_, bind_var=None, at_exit=None, elem_ty=None):
+    def _for_core(self, e, s, itv, ref, elem_pat, body, label_, bind_var=None, at_exit=None, elem_ty=None, forced_N=None):
         I = self.I
         outs = []
         N = self.count_of(s, itv.seq)
@@ -1227,6 +1255,26 @@ class Loops:
             I.unmodelled_at(e, f"for loop over sequence without count {itv.seq!r}")
             return outs
         N = N - itv.pos
+        if forced_N is not None:
+            N = lin(forced_N) if forced_N >= 0 else N
+        elif not N.is_const() and itv.seq[0] != "custom" and solver.entails_lit(s.pc, le(N, UNROLL_MAX)):
+            # a traversal of provably at most UNROLL_MAX elements whose summary would leave carried values havocked (a
+            # bit mask built one shift at a time) is executed exactly, once per possible element count
+            from .interp import Unmodelled
+            I.quiet += 1
+            self.last_report = None
+            try:
+                self._for_core(e, s.clone(), itv, ref, elem_pat, body, label_, bind_var, at_exit, elem_ty, forced_N=-1)
+            except Unmodelled:
+                pass
+            finally:
+                I.quiet -= 1
+            rp = self.last_report
+            if rp is not None and rp.carried:
+                for c in range(0, UNROLL_MAX + 1):
+                    for sc in I.assume(s, flit(eq(N, c))):
+                        outs.extend(self._for_core(e, sc, itv, ref, elem_pat, body, label_, bind_var, at_exit, elem_ty, forced_N=c))
+                return outs
         if solver.entails_lit(s.pc, le(N, 0)):
             # no element: the body is not executed
             if at_exit is not None:
